@@ -482,6 +482,15 @@ func (g *gctx) genStruct(info *amino.TypeInfo) reflect.Value {
 func genTop(rt *regType, seed uint64, depth int, canon bool) reflect.Value {
 	g := &gctx{r: kit.NewRand(seed), depth: depth, canon: canon}
 	pv := reflect.New(rt.RT)
+	if depth < 0 && !rt.Info.IsAminoMarshaler {
+		return pv // boundary: the Go zero value of the type
+	}
+	// (the Go zero value of an AminoMarshaler type such as BigintValue{V: nil} or
+	// params.Param{} is not a value of the type's domain: its MarshalAmino fails or
+	// yields a repr its own UnmarshalAmino rejects; use the constructor-built value)
+	if depth < 0 {
+		g.depth = 0
+	}
 	pv.Elem().Set(g.genValue(rt.RT, false, false))
 	return pv
 }
